@@ -16,7 +16,7 @@ for pid in sorted(props):
             "thorough_cmd": "./check %s --tier thorough" % pid,
             "evidence_file": "/verif/evidence/%s.json" % pid,
             "replay_cmd_template": "./check %s --replay {path}" % pid,
-            "engine": "coq+h1",
+            "engine": "coq+" + "+".join(spec["suites"]),
             "level_claimed": {"category": cat, "text": spec.get("level_text", kvprops.default_level_text(pid, thms)),
                               "design_ref": "DESIGN.md section 5 (%s)" % pid},
             "level_note": spec.get("level_note", kvprops.DEFAULT_NOTE),
@@ -31,14 +31,18 @@ m = {
         "guard": "kanal_verif",
         "enable": "RUSTFLAGS=\"--cfg kanal_verif\" (set in /verif/harness/.cargo/config.toml; rustc cfg, not a cargo feature)",
         "baseline_off_cmd": "cd /repo && cargo test --workspace --no-fail-fast --offline",
-        "source_commits": ["56cc9cd", "dbd65a7"],
+        "source_commits": ["56cc9cd", "dbd65a7", "3baf280", "5bd2864"],
         "add_only": True,
     },
     "engines": [
         {"name": "coq", "path": "/verif/coq", "serves_properties": sorted(kvprops.PROPS),
          "kind_free_text": "Coq 8.16.1 development: executable models (Chan, Atomic, ...) + theorems; rebuilt by make on every check"},
-        {"name": "h1", "path": "/verif/harness", "serves_properties": sorted(kvprops.PROPS),
+        {"name": "kx", "path": "/verif/kx", "serves_properties": ["C03", "C04", "C06", "C07", "C17", "C20"],
+         "kind_free_text": "syn-based translator: regenerates coq/theories/gen/*.v (atomic sites with orderings, control skeletons, lock profiles, size dispatch trees, struct/impl tables) from /repo/src on every run"},
+        {"name": "h1", "path": "/verif/harness", "serves_properties": [p for p in sorted(kvprops.PROPS) if "h1" in kvprops.PROPS[p]["suites"]],
          "kind_free_text": "Rust harness linking the real crate (cfg kanal_verif) + extracted OCaml model: sequential differential"},
+        {"name": "h2", "path": "/verif/harness", "serves_properties": [p for p in sorted(kvprops.PROPS) if "h2" in kvprops.PROPS[p]["suites"]],
+         "kind_free_text": "deterministic scheduler over the cfg(kanal_verif) shim: event traces of multi-threaded runs judged by the extracted Sig/Mutex acceptors, outcome-in-Atomic search, vector-clock detector"},
     ],
     "checks": checks,
     "not_applicable": na,
